@@ -164,6 +164,12 @@ class ExternalVariableCollector(NodeVisitor):
             self.provenance[node.id] = "body"
             self.assigned.add(node.id)
 
+    def visit_ClassDef(self, node):
+        # The class statement binds its name in the function; its body is
+        # a scope of its own
+        self.provenance[node.name] = "body"
+        self.assigned.add(node.name)
+
     def visit_ExceptHandler(self, node):
         if node.name is not None:
             self.provenance[node.name] = "body"
@@ -607,6 +613,10 @@ class PteraTransformer(NodeTransformer):
             ),
             node,
         )
+
+    def visit_ClassDef(self, node):
+        # Like nested functions, nested classes are left alone
+        return node
 
     def visit_For(self, node):
         new_body = self.generate_interactions(node.target)
